@@ -102,6 +102,9 @@ def bytesSplitlines (b : List Nat) : List (List Nat) := splitlinesAux bytesBreak
 def lineBreakChar (c : Nat) : Bool :=
   c == 10 || c == 11 || c == 12 || c == 13 || c == 133 || c == 8232 || c == 8233
 
+/-- SPEC: the `splitlines` algorithm with exactly the eight forms of the statement as line breaks -/
+def eightSplitlines (t : List Nat) : List (List Nat) := splitlinesAux lineBreakChar false t
+
 def lastIs (p : Nat → Bool) : List Nat → Bool
   | [] => false
   | [c] => p c
